@@ -166,6 +166,11 @@ class Cron(addons.AddonMainTask, block.SBlock):
                     # wrap around midnight (relying on hourly wakeups in SET24)
                     sleeptime += SEC_PER_DAY
                 # sleeptime: negative = after the alarm time; positive = before the alarm time
+                if sleeptime > SEC_PER_HOUR + _TT_ERROR:
+                    # not possible with the hourly wakeups unless the clock was changed
+                    diff = sleeptime
+                    reset.set()
+                    break
                 if step == 0:
                     self.log_debug("sleep until wakeup: %.3f sec", sleeptime)
                 if step > 1 or sleeptime < 0:
